@@ -67,6 +67,42 @@ type Case struct {
 	RevReadSizes []int  `json:"rev_read_sizes,omitempty"`
 	Tracker      int    `json:"tracker"` // 0 none, 1 tracker says "closed", 2 tracker says "open"
 	Seed         uint32 `json:"seed"`
+	// Next: connection reuse. After the first tunnel ended (Close, or CloseWrite and the
+	// peer's reply fully received) a second tunnel runs on the SAME Conn pair through new
+	// FrameStream objects on both ends (what the pool does with a returned connection).
+	// After Close the sender starts it immediately, so the first tunnel's Close frame and
+	// the second tunnel's first frames can sit in the receiver's socket buffer together.
+	Next *NextTunnel `json:"next,omitempty"`
+}
+
+// NextTunnel is the second tunnel on a reused connection. In its Ops an injected frame
+// with ID "foreign" carries the FIRST tunnel's id (a stale frame of the previous user of
+// the connection), "own" the second tunnel's id.
+type NextTunnel struct {
+	ID        string `json:"id"`
+	Ops       []Op   `json:"ops"`
+	Ending    string `json:"ending"` // close | closewrite
+	ReadSizes []int  `json:"read_sizes"`
+}
+
+func nextPayload(c Case, idx, n int) []byte {
+	b := make([]byte, n)
+	fill(b, c.Seed^uint32(0x77000+idx*104729), 0, 0x80)
+	return b
+}
+
+func nextModel(c Case) []byte {
+	var data []byte
+	off := 0
+	for _, op := range c.Next.Ops {
+		if op.Inj == nil {
+			b := make([]byte, op.Write)
+			fill(b, c.Seed^0xB2B2B2B2, off, 0)
+			off += op.Write
+			data = append(data, b...)
+		}
+	}
+	return data
 }
 
 // Replay is the on-disk replay unit of this package.
@@ -271,6 +307,9 @@ func readAll(s *crossnode.FrameStream, sizes []int, limit int, progress *atomic.
 
 type outcome struct {
 	fwd, rev     readResult
+	next         readResult
+	nextRan      bool
+	nextDelivered int64
 	writeFail    string // first failing stream operation on a writer side
 	harnessErr   string // loopback / injection trouble: inconclusive
 	timedOut     bool
@@ -326,8 +365,12 @@ func runStream(c Case, quiet time.Duration) (o outcome) {
 	var core, aux sync.WaitGroup
 	abort := make(chan struct{})
 	fwdReaderDone := make(chan struct{})
-	var fwDone, frDone, rwDone, rrDone atomic.Bool
-	var fwdProgress, revProgress atomic.Int64
+	var fwDone, frDone, rwDone, rrDone, nrDone atomic.Bool
+	var fwdProgress, revProgress, nextProgress atomic.Int64
+	revReaderDone := make(chan struct{})
+	if c.Next == nil {
+		nrDone.Store(true)
+	}
 	reverse := c.Ending == endCloseWrite
 
 	// forward reader (peer side B)
@@ -338,6 +381,19 @@ func runStream(c Case, quiet time.Duration) (o outcome) {
 		o.fwd = readAll(sb, c.ReadSizes, fwdLimit, &fwdProgress)
 		frDone.Store(true)
 		close(fwdReaderDone)
+		if c.Next != nil {
+			// the connection is reused: a NEW FrameStream for the second tunnel on the same Conn
+			lim := len(nextModel(c)) + 1
+			for _, op := range c.Next.Ops {
+				if op.Inj != nil {
+					lim += op.Inj.Len
+				}
+			}
+			sb2 := newStream(cb, wireID(c.Next.ID), c.Tracker)
+			o.nextRan = true
+			o.next = readAll(sb2, c.Next.ReadSizes, lim, &nextProgress)
+			nrDone.Store(true)
+		}
 		core.Done()
 		io.Copy(io.Discard, tb) // keep the transport flowing whatever the stream decided
 	}()
@@ -400,11 +456,13 @@ func runStream(c Case, quiet time.Duration) (o outcome) {
 			if err := sa.CloseWrite(); err != nil {
 				setWriteFail("CloseWrite: " + err.Error())
 				ta.Close()
+				return
 			}
 		case endClose:
 			if err := sa.Close(); err != nil {
 				setWriteFail("Close: " + err.Error())
 				ta.Close()
+				return
 			}
 		case endTCPClose:
 			ca.Close()
@@ -428,6 +486,53 @@ func runStream(c Case, quiet time.Duration) (o outcome) {
 				ta.Close()
 			}
 		}
+		if c.Next == nil || (c.Ending != endClose && c.Ending != endCloseWrite) {
+			return
+		}
+		if c.Ending == endCloseWrite {
+			// the first tunnel is over only when the peer's reply has ended too
+			select {
+			case <-revReaderDone:
+			case <-abort:
+				return
+			}
+		}
+		id2 := wireID(c.Next.ID)
+		sa2 := newStream(ca, id2, c.Tracker)
+		off2 := 0
+		for i, op := range c.Next.Ops {
+			if op.Inj != nil {
+				id := id2
+				if op.Inj.ID == "foreign" {
+					id = own // stale frame of the connection's previous tunnel
+				}
+				if err := crossnode.WriteFrame(ta, id, op.Inj.Type, nextPayload(c, i, op.Inj.Len)); err != nil {
+					setHarnessErr(fmt.Sprintf("second tunnel inject op %d: %v", i, err))
+					ta.Close()
+					return
+				}
+				continue
+			}
+			b := make([]byte, op.Write)
+			fill(b, c.Seed^0xB2B2B2B2, off2, 0)
+			off2 += op.Write
+			n, err := sa2.Write(b)
+			if err != nil || n != op.Write {
+				setWriteFail(fmt.Sprintf("second tunnel op %d: Write(%d bytes) = (%d, %v)", i, op.Write, n, err))
+				ta.Close()
+				return
+			}
+		}
+		var err error
+		if c.Next.Ending == endCloseWrite {
+			err = sa2.CloseWrite()
+		} else {
+			err = sa2.Close()
+		}
+		if err != nil {
+			setWriteFail("second tunnel close: " + err.Error())
+			ta.Close()
+		}
 	}()
 
 	if reverse {
@@ -438,6 +543,7 @@ func runStream(c Case, quiet time.Duration) (o outcome) {
 			defer aux.Done()
 			o.rev = readAll(sa, c.RevReadSizes, len(wantRev)+1, &revProgress)
 			rrDone.Store(true)
+			close(revReaderDone)
 			core.Done()
 			io.Copy(io.Discard, ta)
 		}()
@@ -486,14 +592,14 @@ func runStream(c Case, quiet time.Duration) (o outcome) {
 	// Stall detection by lack of progress: the run is declared stuck when neither a
 	// goroutine finished nor a byte was delivered for `quiet`; hardCap bounds a run that
 	// keeps crawling (then inconclusive).
-	snapshot := func() [6]int64 {
+	snapshot := func() [8]int64 {
 		b2i := func(b *atomic.Bool) int64 {
 			if b.Load() {
 				return 1
 			}
 			return 0
 		}
-		return [6]int64{b2i(&fwDone), b2i(&frDone), b2i(&rwDone), b2i(&rrDone), fwdProgress.Load(), revProgress.Load()}
+		return [8]int64{b2i(&fwDone), b2i(&frDone), b2i(&rwDone), b2i(&rrDone), fwdProgress.Load(), revProgress.Load(), b2i(&nrDone), nextProgress.Load()}
 	}
 	last, lastChange, start := snapshot(), time.Now(), time.Now()
 	tick := time.NewTicker(20 * time.Millisecond)
@@ -520,7 +626,7 @@ wait:
 		for _, f := range []struct {
 			n string
 			b *atomic.Bool
-		}{{"forward-writer", &fwDone}, {"forward-reader", &frDone}, {"reverse-writer", &rwDone}, {"reverse-reader", &rrDone}} {
+		}{{"forward-writer", &fwDone}, {"forward-reader", &frDone}, {"reverse-writer", &rwDone}, {"reverse-reader", &rrDone}, {"second-tunnel-reader", &nrDone}} {
 			if !f.b.Load() {
 				s = append(s, f.n)
 			}
@@ -528,6 +634,7 @@ wait:
 		o.stuck = strings.Join(s, ",")
 		o.fwdDelivered = fwdProgress.Load()
 		o.revDelivered = revProgress.Load()
+		o.nextDelivered = nextProgress.Load()
 		break wait
 	}
 	tick.Stop()
@@ -649,6 +756,15 @@ func judge(c Case, o outcome) *failure {
 	wantMerged, mergedEnds := model(c, true)
 	mergedDiffers := trunc && (mergedEnds || !bytes.Equal(want, wantMerged))
 
+	if o.timedOut && c.Next != nil && o.nextRan && strings.Contains(o.stuck, "second-tunnel-reader") && !strings.Contains(o.stuck, "forward-reader") &&
+		!strings.Contains(o.stuck, "reverse-reader") && bytes.Equal(o.fwd.got, want) {
+		// the first tunnel was delivered completely and ended; the tunnel that reuses the connection is stuck
+		w := nextModel(c)
+		if o.nextDelivered >= int64(len(w)) && !strings.Contains(o.stuck, "forward-writer") {
+			return &failure{"C10/end-of-stream-not-delivered/second-tunnel-on-reused-conn/after=" + c.Ending, fmt.Sprintf("second tunnel %q on the connection previously used by %q: all %d bytes delivered but its end-of-stream (%s) never arrived", c.Next.ID, c.OwnID, len(w), c.Next.Ending)}
+		}
+		return &failure{"C10/delivery-stalled/second-tunnel-on-reused-conn/after=" + c.Ending, fmt.Sprintf("second tunnel %q on the connection previously used by %q (ended with %s): %d of %d bytes delivered, then nothing (still running: %s)", c.Next.ID, c.OwnID, c.Ending, o.nextDelivered, len(w), o.stuck)}
+	}
 	if o.timedOut {
 		if strings.Contains(o.stuck, "forward-reader") && !strings.Contains(o.stuck, "forward-writer") && o.fwdDelivered >= int64(len(want)) {
 			return &failure{"C10/end-of-stream-not-delivered/ending=" + c.Ending, fmt.Sprintf("writer finished (%s) and all %d bytes were delivered, but the peer's Read never returned end-of-stream", c.Ending, len(want))}
@@ -676,6 +792,49 @@ func judge(c Case, o outcome) *failure {
 		if f := judgeDir(c, "reverse", o.rev, revModel(c), nil, false, false); f != nil {
 			return f
 		}
+	}
+	if c.Next != nil && o.nextRan {
+		return judgeNext(c, o.next)
+	}
+	return nil
+}
+
+// judgeNext: the tunnel that reuses the connection obeys the same byte-exact model.
+func judgeNext(c Case, r readResult) *failure {
+	const where = "second-tunnel-on-reused-conn"
+	want := nextModel(c)
+	if r.note != "" {
+		return &failure{"C10/reader-misbehaves/" + where, r.note}
+	}
+	if !bytes.Equal(r.got, want) {
+		if i := hasMarked(r.got); i >= 0 {
+			kind := "unidentified"
+			for j, op := range c.Next.Ops {
+				if op.Inj == nil || op.Inj.Len == 0 {
+					continue
+				}
+				p := nextPayload(c, j, op.Inj.Len)
+				if len(p) > 24 {
+					p = p[:24]
+				}
+				if bytes.Contains(r.got, p) {
+					kind = fmt.Sprintf("id=%s/type=%s", map[string]string{"foreign": "previous-tunnel", "own": "own"}[op.Inj.ID], typeName(op.Inj.Type))
+					break
+				}
+			}
+			return &failure{"C10/non-stream-frame-delivered-as-data/" + where + "/" + kind, fmt.Sprintf("second tunnel %q (connection previously used by %q): bytes of an injected frame (%s) returned by Read at stream offset %d", c.Next.ID, c.OwnID, kind, i)}
+		}
+		d := firstDiff(r.got, want)
+		if d == len(r.got) && len(r.got) < len(want) {
+			return &failure{"C10/bytes-missing-before-end-of-stream/" + where + "/after=" + c.Ending, fmt.Sprintf("second tunnel %q on the connection previously used by %q: got %d of %d bytes then %v", c.Next.ID, c.OwnID, len(r.got), len(want), r.err)}
+		}
+		return &failure{"C10/stream-bytes-differ/" + where, fmt.Sprintf("second tunnel %q: first difference at offset %d (got %d bytes, want %d); read sizes %v", c.Next.ID, d, len(r.got), len(want), c.Next.ReadSizes)}
+	}
+	if r.err == nil {
+		return &failure{"C10/reader-misbehaves/" + where, "reader stopped without error"}
+	}
+	if !errors.Is(r.err, io.EOF) {
+		return &failure{"C10/error-instead-of-end-of-stream/" + where, fmt.Sprintf("second tunnel %q: all %d bytes delivered, then Read returned %v instead of io.EOF", c.Next.ID, len(want), r.err)}
 	}
 	return nil
 }
@@ -803,7 +962,19 @@ func (c Case) features() (big, injBetween bool, sig string) {
 	for _, n := range c.Reverse {
 		rs = append(rs, sizeClass(n))
 	}
-	sig = fmt.Sprintf("%v|%s|%v|%v|%v|trunc=%v", sc, c.Ending, c.Duplex, rs, readClass(c.ReadSizes), truncShape(c.OwnID, c.ForeignID))
+	nx := ""
+	if c.Next != nil {
+		var ns []string
+		for _, op := range c.Next.Ops {
+			if op.Inj == nil {
+				ns = append(ns, sizeClass(op.Write))
+			} else {
+				ns = append(ns, fmt.Sprintf("i:%s:%s", op.Inj.ID, typeName(op.Inj.Type)))
+			}
+		}
+		nx = fmt.Sprintf("|next:%v:%s:%s", ns, c.Next.Ending, readClass(c.Next.ReadSizes))
+	}
+	sig = fmt.Sprintf("%v|%s|%v|%v|%v|trunc=%v%s", sc, c.Ending, c.Duplex, rs, readClass(c.ReadSizes), truncShape(c.OwnID, c.ForeignID), nx)
 	return
 }
 
@@ -822,7 +993,7 @@ func readClass(s []int) string {
 
 func summarize(c Case) any {
 	return map[string]any{"own_id": c.OwnID, "foreign_id": c.ForeignID, "ops": c.Ops, "side": c.Side, "ending": c.Ending,
-		"cut": c.Cut, "cut_len": c.CutLen, "duplex": c.Duplex, "reverse": c.Reverse, "read_sizes": c.ReadSizes}
+		"cut": c.Cut, "cut_len": c.CutLen, "duplex": c.Duplex, "reverse": c.Reverse, "read_sizes": c.ReadSizes, "next": c.Next}
 }
 
 // A typical case takes ~10 ms. The first stall of a process is judged with a 6 s
@@ -846,6 +1017,20 @@ func checkStream(t vkit.TB, c Case) {
 	}
 	if len(c.RevReadSizes) == 0 {
 		c.RevReadSizes = []int{4096}
+	}
+	if c.Next != nil {
+		if c.Ending != endClose && c.Ending != endCloseWrite {
+			c.Next = nil // a connection whose transport ended cannot be reused
+		} else {
+			n := *c.Next
+			if len(n.ReadSizes) == 0 {
+				n.ReadSizes = []int{4096}
+			}
+			if wireID(n.ID) == wireID(c.OwnID) {
+				n.ID = "N" + n.ID
+			}
+			c.Next = &n
+		}
 	}
 	o := runStream(c, quietWindow())
 	if o.timedOut && o.harnessErr == "" {
@@ -880,6 +1065,15 @@ func checkStream(t vkit.TB, c Case) {
 	vkit.Sample(class, summarize(c))
 	if big {
 		vkit.Class("feat:write>64KiB")
+	}
+	if c.Next != nil {
+		vkit.Class("feat:second-tunnel-on-reused-conn/after=" + c.Ending)
+		vkit.AddExtra("stream_cases_with_connection_reuse", 1)
+		for _, op := range c.Next.Ops {
+			if op.Inj != nil && op.Inj.ID == "foreign" {
+				vkit.Class("feat:stale-frame-of-previous-tunnel/" + typeName(op.Inj.Type))
+			}
+		}
 	}
 	if truncShape(c.OwnID, c.ForeignID) {
 		vkit.Class("feat:ids-share-16-byte-prefix(no conflicting frame)")
@@ -1129,6 +1323,24 @@ func genCase(t *rapid.T) Case {
 		}
 		c.RevReadSizes = genReadSizes(t, "revReads")
 	}
+	if (c.Ending == endClose && pick(t, "reuseAfterClose", 1, 1) == 0) || (c.Ending == endCloseWrite && pick(t, "reuse", 3, 1) == 1) {
+		n := &NextTunnel{ID: genID(t, "nextID")}
+		for i := 0; wireID(n.ID) == wireID(c.OwnID); i++ {
+			n.ID = string(rune('N'+i)) + n.ID
+		}
+		nb := 1 << 20
+		k := rapid.IntRange(1, 5).Draw(t, "nextOps")
+		for i := 0; i < k; i++ {
+			if pick(t, "nextOpKind", 7, 3) == 0 {
+				n.Ops = append(n.Ops, Op{Write: genSize(t, "nw", &nb)})
+			} else {
+				n.Ops = append(n.Ops, Op{Inj: genInject(t)})
+			}
+		}
+		n.Ending = []string{endClose, endCloseWrite}[pick(t, "nextEnding", 1, 1)]
+		n.ReadSizes = genReadSizes(t, "nextReads")
+		c.Next = n
+	}
 	return c
 }
 
@@ -1158,6 +1370,13 @@ func TestStreamFixed(t *testing.T) {
 		{OwnID: "t1", ForeignID: "t2", Seed: 6, Ops: []Op{{Write: 200 * 1024}, foreignData(1), {Write: maxFrame + 1}}, Ending: endCloseWrite, Duplex: true,
 			Reverse: []int{1 << 20, maxFrame}, ReadSizes: []int{2, maxFrame + 1}, RevReadSizes: []int{1, 100}},
 	}
+	// connection reuse: a second tunnel on the same Conn right behind the first one's Close frame
+	cases = append(cases,
+		Case{OwnID: "tunnel-A", ForeignID: "tunnel-X", Seed: 7, Ops: []Op{{Write: 1000}}, Ending: endClose, ReadSizes: []int{100},
+			Next: &NextTunnel{ID: "tunnel-B", Ops: []Op{{Write: 5000}, {Inj: &Inject{ID: "foreign", Type: crossnode.FrameTypeClose}}, {Write: maxFrame + 1}}, Ending: endClose, ReadSizes: []int{4096}}},
+		Case{OwnID: "tcp-tunnel-1758000000000000001-5001", ForeignID: "x", Seed: 8, Ops: []Op{{Write: maxFrame + 1}, foreignData(10)}, Ending: endCloseWrite, Reverse: []int{100}, ReadSizes: []int{1 << 20}, RevReadSizes: []int{7},
+			Next: &NextTunnel{ID: "udp-tunnel-1758000000000000002-5002", Ops: []Op{{Inj: &Inject{ID: "foreign", Type: crossnode.FrameTypeData, Len: 50}}, {Write: 1}, {Write: 0}}, Ending: endCloseWrite, ReadSizes: []int{0, 1}}},
+	)
 	for _, c := range cases {
 		checkStream(t, c)
 	}
